@@ -3,27 +3,47 @@
 (* C05 on observations of the REAL code (batch idiom, DESIGN.md A.2).      *)
 (* One observation = the flat description of one GIR file                  *)
 (* (harness/c05proj.py: a structural flattening of the XML, no judging):   *)
-(*   [id, ns, avail, partial, defs, uses, idx, pairs, case, pred]          *)
-(* Verdict: Closed (tla/IntrospectProp.tla) evaluated by TLC on each.      *)
-(* `pred` (optional, <<>> when absent) = marks predicted by the            *)
-(* implementation-shaped model for a generated case: a disagreement is     *)
-(* reported as DRIFT (a note about tla/Introspect.tla, never a violation). *)
+(*   [id, ns, avail, partial, defs, uses, idx, pairs, marks, model]        *)
+(* Verdict: Rejections (tla/IntrospectProp.tla: Closed) evaluated by TLC.  *)
+(*                                                                         *)
+(* model = [nodes, order, names]: the abstract case the GIR was scanned    *)
+(* from (empty for repository files) and the GIR names of its nodes.  TLC  *)
+(* runs the implementation-shaped layer (IntrospectWalks!Run) on it and    *)
+(* compares the predicted introspectable="0" marks with the real ones      *)
+(* (marks = [q, marked] of the top-level elements and their members): a    *)
+(* disagreement is reported as clause DRIFT -- a note that the code no     *)
+(* longer follows tla/IntrospectWalks.tla, never a violation.              *)
 (***************************************************************************)
-EXTENDS IntrospectProp, Json, IOUtils, SequencesExt
+EXTENDS IntrospectWalks, Json, IOUtils, SequencesExt
 
 Obs == JsonDeserialize(IOEnv.TRACE_FILE)
 
-\* pred: sequence of [q, marked]: definitions whose mark the model predicted
-Drift(o) == {<<"DRIFT", IF o.pred[i].marked THEN "model-marked-code-not" ELSE "code-marked-model-not", o.pred[i].q>> :
-                i \in {j \in DOMAIN o.pred : /\ o.pred[j].q \in DOMAIN o.defs
-                                             /\ o.defs[o.pred[j].q].intro = o.pred[j].marked}}
+Expected(o, stf, n) ==
+    LET g == o.model.nodes  nm == o.model.names[n]  m == Marked(stf, n) IN
+    (IF stf.dropped[n] THEN {} ELSE {<<nm, m>>})
+    \cup (IF g[n].kind = "record" THEN {<<nm \o "/field:f", m \/ ~stf.fintro[n]>>} ELSE {})
+    \cup (IF g[n].kind = "class"
+            THEN {<<nm \o "/method:set_p", m \/ stf.mskip[n] \/ ~stf.mintro[n]>>,
+                  <<nm \o "/virtual-method:set_p", m \/ stf.vskp[n] \/ ~stf.vintro[n]>>,
+                  <<nm \o "/glib:signal:sig", m \/ stf.sskip[n] \/ ~stf.sintro[n]>>,
+                  <<nm \o "/property:p", m \/ ~stf.pintro[n]>>}
+            ELSE {})
+
+Drift(o) ==
+    IF Len(o.model.nodes) = 0 THEN {}
+    ELSE LET stf == Run([nodes |-> o.model.nodes, order |-> o.model.order])
+             act == {<<o.marks[i].q, o.marks[i].marked>> : i \in DOMAIN o.marks}
+             exp == UNION {Expected(o, stf, n) : n \in DOMAIN o.model.nodes}
+         IN  {<<"DRIFT", IF e[2] THEN "model-marks-code-does-not" ELSE "code-marks-model-does-not", e[1]>> :
+                 e \in {x \in exp : x \notin act}}
 
 RejectedOf(o) == {<<o.id, r[1], r[2], r[3]>> : r \in Rejections(o) \cup Drift(o)}
 Rejected == UNION {RejectedOf(Obs[i]) : i \in DOMAIN Obs}
 
-RECURSIVE SumEx(_, _)
-SumEx(i, c) == IF i = 0 THEN 0 ELSE ExercisedIn(Obs[i])[c] + SumEx(i - 1, c)
-Exercised == [c \in AllClauseNames |-> SumEx(Len(Obs), c)]
+\* vacuity counters: how often each clause spoke, over the whole batch (no recursion: batches are long)
+CountIn(o, c) == ExercisedCount(o, c)
+Exercised == [c \in AllClauseNames |->
+                 Cardinality(UNION {{<<i, k>> : k \in 1..CountIn(Obs[i], c)} : i \in DOMAIN Obs})]
 
 ASSUME JsonSerialize(IOEnv.VERDICT_FILE, [n |-> Len(Obs), rejected |-> SetToSeq(Rejected), exercised |-> Exercised])
 
